@@ -40,6 +40,10 @@ enum {
   C_SUBPROC,       /* put this thread into a fresh sub-process */
   C_REALLOC,       /* a = slot, b = new size */
   C_FREE_RANGE_WAIT, /* a = first slot, b = count: C_FREE_WAIT for each slot in order */
+  C_DUMP,
+  C_WAIT_LIVE,     /* a = slot: wait until some thread has allocated into it */
+  C_PAGES_LE,      /* a = mark index: the owner's heap must not hold more pages now than at that mark */
+  C_WAIT_FREE_DONE,/* like C_WAIT_FREED, but waits until the consumer's mi_free calls have returned */
   C_WAIT_FREED,    /* a = first slot, b = count: wait (yielding) until these slots have been released by their consumer */
 };
 typedef struct cop_s { int code; long a, b, c, d; } cop_t;
@@ -55,7 +59,7 @@ typedef struct cprog_s {
 } cprog_t;
 
 #define NSLOTS 96
-typedef struct slot_s { uint8_t* p; size_t req, usable; uint64_t seed; int live; int owner; int arena; mi_memid_t memid; int in_transit; } slot_t;
+typedef struct slot_s { uint8_t* p; size_t req, usable; uint64_t seed; int live; int owner; int arena; mi_memid_t memid; int in_transit; int free_returned; } slot_t;
 static slot_t  g_slots[NSLOTS];
 static mi_heap_t* g_hs[4];
 static long    g_pages_mark[8];
@@ -96,7 +100,7 @@ static int model_add(int slot, void* ptr, size_t req, int tid, const char* what)
   slot_t* s = &g_slots[slot];
   s->p = p; s->req = req; s->usable = usable; s->owner = tid; s->seed = vf_mix((uintptr_t)p ^ (req * 31) ^ ((uint64_t)slot << 40));
   vf_pat_write(p, usable, s->seed);
-  s->live = 1; s->in_transit = 0;
+  s->live = 1; s->in_transit = 0; s->free_returned = 0;
   obs(tid, (uintptr_t)p);
   return 0;
 }
@@ -123,9 +127,9 @@ static int exec_ops(const cop_t* ops, int tid, int explored) {
       case C_FILL: for (long i = 0; i < o->c; i++) { void* p = mi_malloc((size_t)o->a); if (model_add((int)(o->b + i), p, (size_t)o->a, tid, "mi_malloc")) return -1; } break;
       case C_FREE: if (g_slots[o->a].live) { void* p = g_slots[o->a].p; if (model_remove((int)o->a, tid)) return -1; mi_free(p); obs(tid, 0xF0 + (uint64_t)o->a); } else obs(tid, 0xE0); break;
       case C_FREE_WAIT: { long spins = 0; while (!g_slots[o->a].live) { vf_yield(); if (++spins > 100000) { SVIOL("livelock", "thread %d waits forever for slot %ld", tid, o->a); return -1; } }
-                          void* p = g_slots[o->a].p; if (model_remove((int)o->a, tid)) return -1; mi_free(p); break; }
+                          void* p = g_slots[o->a].p; if (model_remove((int)o->a, tid)) return -1; mi_free(p); g_slots[o->a].free_returned = 1; break; }
       case C_FREE_RANGE_WAIT: for (long i = 0; i < o->b; i++) { long spins = 0; while (!g_slots[o->a + i].live) { vf_yield(); if (++spins > 100000) { SVIOL("livelock", "thread %d waits forever for slot %ld", tid, o->a + i); return -1; } }
-                              void* p = g_slots[o->a + i].p; if (model_remove((int)(o->a + i), tid)) return -1; mi_free(p); if (check_live_patterns("after free", tid)) return -1; } break;
+                              void* p = g_slots[o->a + i].p; if (model_remove((int)(o->a + i), tid)) return -1; mi_free(p); g_slots[o->a + i].free_returned = 1; if (check_live_patterns("after free", tid)) return -1; } break;
       case C_REALLOC: if (g_slots[o->a].live) {
           slot_t old = g_slots[o->a]; g_slots[o->a].in_transit = 1;
           void* q = mi_realloc(old.p, (size_t)o->b);
@@ -148,7 +152,10 @@ static int exec_ops(const cop_t* ops, int tid, int explored) {
       case C_GENERIC99: { mi_heap_t* h = mi_heap_get_default(); h->generic_count = 99; break; }
       case C_COLLECT_REDUCE: mi_collect_reduce((size_t)o->a); break;
       case C_PAGES_MARK: g_pages_mark[o->a] = (long)mi_heap_get_backing()->page_count; if (g_pages_mark[o->a] > vf_sh->counters[6]) vf_sh->counters[6] = g_pages_mark[o->a]; break;
-      case C_WAIT_FREED: { long spins = 0; for (;;) { int pending = 0; for (long i = 0; i < o->b; i++) if (g_slots[o->a + i].live || g_slots[o->a + i].p == NULL) pending = 1; if (!pending) break; vf_yield(); if (++spins > 100000) { SVIOL("livelock", "thread %d waits forever for slots %ld..", tid, o->a); return -1; } } break; }
+      case C_WAIT_LIVE: { long spins = 0; while (!g_slots[o->a].live) { vf_yield(); if (++spins > 100000) { SVIOL("livelock", "thread %d waits forever for slot %ld", tid, o->a); return -1; } } break; }
+      case C_DUMP: { mi_heap_t* h = mi_heap_get_default(); fprintf(stderr, "[t%d] pages=%zu", tid, h->page_count); for (int b = 0; b <= MI_BIN_FULL; b++) for (mi_page_t* pg = h->pages[b].first; pg; pg = pg->next) fprintf(stderr, " [bin%d bs=%zu used=%d fl=%d]", b, mi_page_block_size(pg), pg->used, (int)mi_page_thread_free_flag(pg)); fprintf(stderr, "\n"); break; }
+      case C_PAGES_LE: { long now = (long)mi_heap_get_backing()->page_count; VF_INC(checks); if (now > g_pages_mark[o->a]) { SVIOL("freed-blocks-not-reused", "thread %d: %ld blocks were freed by another thread and the same number allocated again, but the heap grew from %ld to %ld pages: the remotely freed blocks were not reusable by the owner", tid, o->b, g_pages_mark[o->a], now); return -1; } break; }
+      case C_WAIT_FREED: case C_WAIT_FREE_DONE: { long spins = 0; for (;;) { int pending = 0; for (long i = 0; i < o->b; i++) if (g_slots[o->a + i].live || g_slots[o->a + i].p == NULL || (o->code == C_WAIT_FREE_DONE && !g_slots[o->a + i].free_returned)) pending = 1; if (!pending) break; vf_yield(); if (++spins > 100000) { SVIOL("livelock", "thread %d waits forever for slots %ld..", tid, o->a); return -1; } } break; }
       case C_TICK: vf_os.clock_ms += o->a; break;
       case C_SUBPROC: { mi_subproc_id_t sp = mi_subproc_new(); mi_subproc_add_current_thread(sp); break; }
       case C_ARENA_ALLOC: {
@@ -309,6 +316,18 @@ static const cprog_t progs[] = {
                  { C_WAIT_FREED, 0, 8 }, { C_GENERIC99 }, { C_FILL, S8, 16, 8 }, { C_PAGES_MARK, 2 }, { C_WAIT_FREED, 8, 8 }, { C_GENERIC99 }, { C_FILL, S8, 24, 8 }, { C_PAGES_MARK, 3 },
                  { C_WAIT_FREED, 16, 8 }, { C_GENERIC99 }, { C_FILL, S8, 32, 8 }, { C_PAGES_MARK, 4 }, { C_WAIT_FREED, 24, 8 }, { C_GENERIC99 }, { C_FILL, S8, 40, 8 }, { C_PAGES_MARK, 5 } },
                { { C_FREE_RANGE_WAIT, 0, 40 } } } },
+  /* R1: a page adopted from a terminated thread (the owner-to-be frees one of its blocks, which reclaims the abandoned segment: run with MIMALLOC_ABANDONED_RECLAIM_ON_FREE=1) fills up and moves to the full queue; another thread then frees three of its
+     blocks; the owner allocates as many again (administrative step forced): they must fit without a new page.
+     The adopted page and a second page are both full before the frees start, so only the freed blocks can hold the new ones. */
+  { .name = "R1", .nthreads = 3, .quiescence = 0,
+    .setup = { { { C_INIT } }, { { C_INIT } }, { { C_FILL, S8, 0, 8 }, { C_THREAD_DONE } } },
+    .run   = { { { C_FREE, 7 }, { C_FILL, S8, 10, 9 }, { C_PAGES_MARK, 0 }, { C_WAIT_FREE_DONE, 0, 3 }, { C_GENERIC99 }, { C_FILL, S8, 20, 3 }, { C_PAGES_LE, 0, 3 } },
+               { { C_WAIT_LIVE, 18 }, { C_FREE_RANGE_WAIT, 0, 3 } }, { { C_END } } } },
+  /* R2: the same, but the frees start as soon as the adopted page is full, racing with the owner moving it to the full queue */
+  { .name = "R2", .nthreads = 3, .quiescence = 0,
+    .setup = { { { C_INIT } }, { { C_INIT } }, { { C_FILL, S8, 0, 8 }, { C_THREAD_DONE } } },
+    .run   = { { { C_FREE, 7 }, { C_FILL, S8, 10, 9 }, { C_PAGES_MARK, 0 }, { C_WAIT_FREE_DONE, 0, 3 }, { C_GENERIC99 }, { C_FILL, S8, 20, 3 }, { C_PAGES_LE, 0, 3 } },
+               { { C_WAIT_LIVE, 10 }, { C_FREE_RANGE_WAIT, 0, 3 } }, { { C_END } } } },
   /* E1: thread exit racing a remote free of one of its blocks and an allocation that reclaims */
   { .name = "E1", .leakcheck = 1, .nthreads = 3, .quiescence = 0,
     .setup = { { { C_INIT } }, { { C_MALLOC, S8, 0 }, { C_MALLOC, S8, 1 } }, { { C_INIT } } },
